@@ -5,6 +5,7 @@ package resources
 import (
 	"encoding/json"
 	"fmt"
+	"os"
 	"reflect"
 	"runtime/debug"
 	"sort"
@@ -426,6 +427,16 @@ func linReductions(stmts []proggen.LinStmt) [][]proggen.LinStmt {
 	// rebuild returns a copy of the tree with statement i of this list replaced by repl
 	var walk func(list []proggen.LinStmt, rebuild func([]proggen.LinStmt) []proggen.LinStmt)
 	walk = func(list []proggen.LinStmt, rebuild func([]proggen.LinStmt) []proggen.LinStmt) {
+		// deleting two statements of one block at once (a declaration and its only consumer)
+		for i := 0; i < len(list); i++ {
+			for j := i + 1; j < len(list); j++ {
+				n := make([]proggen.LinStmt, 0, len(list)-2)
+				n = append(n, list[:i]...)
+				n = append(n, list[i+1:j]...)
+				n = append(n, list[j+1:]...)
+				out = append(out, rebuild(n))
+			}
+		}
 		for i := range list {
 			i := i
 			s := list[i]
@@ -456,6 +467,8 @@ func linReductions(stmts []proggen.LinStmt) [][]proggen.LinStmt {
 				out = append(out, splice(append([]proggen.LinStmt{{K: proggen.LCreate, Y: s.Y}}, s.Body...)...))
 			case proggen.LIfLet:
 				out = append(out, splice(s.Else...))
+				// an optional binding is, for its source, an invalidation
+				out = append(out, splice(proggen.LinStmt{K: proggen.LDestroy, X: s.X, T: s.T}))
 			case proggen.LMoveVar:
 				out = append(out, splice(proggen.LinStmt{K: proggen.LDestroy, X: s.X, T: s.T}))
 				// drop the move and let the old name stand for the new one
@@ -485,16 +498,6 @@ func linReductions(stmts []proggen.LinStmt) [][]proggen.LinStmt {
 		}
 	}
 	walk(stmts, func(n []proggen.LinStmt) []proggen.LinStmt { return n })
-	// deleting two top-level statements at once (a declaration and its only consumer)
-	for i := 0; i < len(stmts); i++ {
-		for j := i + 1; j < len(stmts); j++ {
-			n := make([]proggen.LinStmt, 0, len(stmts)-2)
-			n = append(n, stmts[:i]...)
-			n = append(n, stmts[i+1:j]...)
-			n = append(n, stmts[j+1:]...)
-			out = append(out, n)
-		}
-	}
 	return out
 }
 
@@ -578,6 +581,22 @@ func runC03(env *mc.Env) {
 	// every program is a few short-lived kilobytes: collect less often
 	defer debug.SetGCPercent(debug.SetGCPercent(800))
 	slices := c03Slices(env.Thorough())
+	var coreMu sync.Mutex
+	cores := map[string]int{}
+	var dis [][]proggen.LinTok
+	saveDis := os.Getenv("C03_SAVE") != ""
+	defer func() {
+		var list []string
+		for k, n := range cores {
+			list = append(list, fmt.Sprintf("%s (%d programs)", k, n))
+		}
+		sort.Strings(list)
+		env.R.Set("disagreement_cores", list)
+		if saveDis {
+			b, _ := json.Marshal(dis)
+			os.WriteFile(os.Getenv("C03_SAVE"), b, 0o644)
+		}
+	}()
 	const batch = 2048
 	slices = append(slices, c03Slice{name: "seeds"})
 	if env.Sub != "" { // debugging aid: run only the slices whose name contains --sub
@@ -651,6 +670,12 @@ func runC03(env *mc.Env) {
 							continue
 						}
 						if sig != "" {
+							coreMu.Lock()
+							cores[sig]++
+							if saveDis {
+								dis = append(dis, toks)
+							}
+							coreMu.Unlock()
 							env.R.Violation(sig, c03Case{toks, proggen.RenderLin(toks)}, detail)
 							classes["disagreement:"+strings.SplitN(sig, "|", 2)[0]]++
 							continue
@@ -716,4 +741,28 @@ func init() {
 		Run:    runC03,
 		Replay: replayC03,
 	})
+}
+
+// checkVerbose parses and checks src and returns the rendered errors (debug aid).
+func (lc *linChecker) checkVerbose(src string) ([]string, error) {
+	prog, err := parser.ParseProgram(nil, []byte(src), parser.Config{})
+	if err != nil {
+		return nil, err
+	}
+	checker, err := sema.NewChecker(prog, common.StringLocation("v"), nil, linConfig(nil))
+	if err != nil {
+		return nil, err
+	}
+	err = checker.Check()
+	var out []string
+	if ce, ok := err.(*sema.CheckerError); ok {
+		for _, e := range ce.Errors {
+			pos := ""
+			if p, ok := e.(ast.HasPosition); ok {
+				pos = p.StartPosition().String()
+			}
+			out = append(out, fmt.Sprintf("%s %T %v", pos, e, e))
+		}
+	}
+	return out, nil
 }
